@@ -3,6 +3,7 @@ package props
 import (
 	"bytes"
 	"fmt"
+	"regexp"
 	"sort"
 	"strings"
 	"time"
@@ -726,7 +727,7 @@ func stlGenWriterModel(r *fw.Rand) (stlModel, *astisub.Subtitles, string) {
 			j := []astisub.Justification{astisub.JustificationUnchanged, astisub.JustificationLeft, astisub.JustificationCentered, astisub.JustificationRight}[c.JC]
 			it.InlineStyle = &astisub.StyleAttributes{STLJustification: &j, STLPosition: &astisub.STLPosition{VerticalPosition: int(c.VP)}}
 		} else {
-			c.VP, c.JC = 20, 1 // the writer's defaults
+			c.VP, c.JC = 255, 255 // not set by the model: the writer's choice is not compared
 		}
 		budget := 100
 		for l := 0; l < r.Range(1, 3) && budget > 20; l++ {
@@ -903,6 +904,32 @@ func stlDecodeFile(b []byte) (meta string, cues string, tcs [][8]byte, err error
 	return stlMetaDenote(g, false, true), cb.String(), tcs, nil
 }
 
+var (
+	stlReMaxRows = regexp.MustCompile(`maxrows=\d+`)
+	stlRePos     = regexp.MustCompile(`vp=\d+ jc=-?\d+`)
+)
+
+// stlNormalise removes from a cue denotation what the model did not supply: the writer's defaults (display rows when
+// there is no STL metadata, vertical position and justification of cues without them) are its own business
+func stlNormalise(s string, m stlModel, withSTLMeta bool) string {
+	lines := strings.Split(s, "\n")
+	k := 0
+	for i, l := range lines {
+		if !strings.HasPrefix(l, "cue ") {
+			continue
+		}
+		if !withSTLMeta {
+			l = stlReMaxRows.ReplaceAllString(l, "maxrows=*")
+		}
+		if k < len(m.Cues) && m.Cues[k].VP == 255 {
+			l = stlRePos.ReplaceAllString(l, "vp=* jc=*")
+		}
+		lines[i] = l
+		k++
+	}
+	return strings.Join(lines, "\n")
+}
+
 const c05FindingTeletext = "C05/teletext-dsc-text-not-recovered"
 const c05FindingDollar = "C05/dollar-written-as-currency-sign"
 
@@ -941,17 +968,19 @@ func c05Writer(c *fw.Ctx) fw.Outcome {
 		return b.String()
 	}
 	hasDollar := strings.Contains(exp(model, false, false), "$")
-	teletext := model.G.DSC != "0"
+	teletext := len(doc) > 11 && doc[11] != '0' // the display standard the writer actually used
 	var hits []string
+	withSTLMeta := kind == "stl-metadata-open" || kind == "stl-metadata-teletext"
 	match := func(have string, who string) (string, bool) {
-		strict := exp(model, false, false)
+		have = stlNormalise(have, model, withSTLMeta)
+		strict := stlNormalise(exp(model, false, false), model, withSTLMeta)
 		if stlSameWithin1ns(strict, have) {
 			return "", true
 		}
 		// recorded findings, each a precise alternative prediction
 		dollar := hasDollar && c.IsKnown(c05FindingDollar)
 		tele := teletext && c.IsKnown(c05FindingTeletext)
-		if (dollar || tele) && stlSameWithin1ns(exp(model, dollar, tele), have) {
+		if (dollar || tele) && stlSameWithin1ns(stlNormalise(exp(model, dollar, tele), model, withSTLMeta), have) {
 			if tele {
 				hits = append(hits, c05FindingTeletext)
 			} else {
@@ -969,7 +998,7 @@ func c05Writer(c *fw.Ctx) fw.Outcome {
 	if msg, ok := match(dcues, "independent decoder"); !ok {
 		return fw.Bad(key, fmt.Sprintf("%x", doc), "%s", msg)
 	}
-	if e := stlMetaDenote(model.G, false, true); dmeta != e {
+	if e := stlMetaDenote(model.G, false, true); withSTLMeta && dmeta != e {
 		return fw.Bad(key, fmt.Sprintf("%x", doc), "STL writer (%s) -> independent decoder, metadata: expected %s got %s", kind, e, dmeta)
 	}
 	// (b) library reader
@@ -980,8 +1009,18 @@ func c05Writer(c *fw.Ctx) fw.Outcome {
 	if msg, ok := match(stlProjectCues(got), "library reader"); !ok {
 		return fw.Bad(key, fmt.Sprintf("%x", doc), "%s", msg)
 	}
-	if e, h := stlMetaDenote(model.G, false, true), stlProjectMeta(got.Metadata); e != h {
+	if e, h := stlMetaDenote(model.G, false, true), stlProjectMeta(got.Metadata); withSTLMeta && e != h {
 		return fw.Bad(key, fmt.Sprintf("%x", doc), "STL writer (%s) -> library reader, metadata: expected %s got %s", kind, e, h)
+	}
+	if !withSTLMeta {
+		// without STL metadata the writer chooses its own defaults: the two decoders must agree on what it wrote, and a
+		// title inherited from another format must survive
+		if h := stlProjectMeta(got.Metadata); h != dmeta {
+			return fw.Bad(key, fmt.Sprintf("%x", doc), "STL writer (%s): the library reader and the independent decoder disagree on the metadata of the written file: %s vs %s", kind, h, dmeta)
+		}
+		if got.Metadata == nil || got.Metadata.Title != model.G.OPT {
+			return fw.Bad(key, fmt.Sprintf("%x", doc), "STL writer (%s): title %q not found in the written file", kind, model.G.OPT)
+		}
 	}
 	// (c) reading then writing again changes no timecode
 	if p := guard(func() { err = got.WriteToSTL(&b2) }); p != "" || err != nil {
